@@ -1,2 +1,438 @@
-(* Model for C12 — to be written. Executable definitions only, no proofs. *)
-From WI Require Import Lib.Base Lib.Info.
+(* Model for C12 (shared with C11): OpenPGP v4 public-key bodies, MPIs, v4 signature packets
+   and the key description of internal/file/pgp.go.  Executable definitions only, no proofs.
+
+   Go sources (repository worktree):
+     internal/openpgp/packet/packet.go      readMPI :540, writeMPI :557, padToKeySize :575
+     internal/openpgp/packet/public_key.go  parseOID :55, ecdhKdf.parse :120, newEdDSA :182, newX25519 :191,
+                                            PublicKey.parse :311, setFingerPrintAndKeyId :372,
+                                            SerializeSignaturePrefix :465, serializeWithoutHeaders :537,
+                                            KeyIdString :797, BitLength :828
+     internal/openpgp/packet/signature.go   Signature.parse :84, parseSignatureSubpacket :218
+     internal/file/pgp.go                   pubkeyAlgorithmNames :23, keyFlagsToString :34,
+                                            gpgPublicKeyAttributes :54, gpgSignatureAttributes :73
+
+   Variants: [cfg] selects, per repaired defect, the code before ([false]) or after ([true]) the
+   repair; [fixed] is the code as it is now, [legacy] the code as it was found. *)
+From WI Require Import Lib.Base Lib.Info Lib.Time gen.PgpTables.
+Open Scope N_scope.
+
+Record cfg := mkcfg {
+  fix7 : bool;     (* EdDSA / X25519 point length checked (was: slice panic, later ed25519.Verify panic) *)
+  fix8 : bool;     (* unprotected ECDH secret key parsed (was: panic("impossible")) *)
+  fix28 : bool;    (* key lifetime 0 = never (was: expires on the creation date) *)
+  fix29 : bool;    (* EdDSA R and S left-padded to 32 octets (was: valid signature rejected) *)
+  fixkdf : bool;   (* F37: ECDH KDF field kept and re-serialised as read (was: rewritten as 03 01 hash algo) *)
+  fix38 : bool;    (* F38: an identity shows its verified self-signature only (was: also every unverified signature that followed the user ID) *)
+  fix39 : bool     (* F39: a subkey's Created is the creation time of the subkey (was: of its binding signature) *)
+}.
+Definition fixed : cfg := mkcfg true true true true true true true.
+Definition legacy : cfg := mkcfg false false false false false false false.
+
+(* ---------- reading ---------- *)
+Definition be16 (n : N) : bytes := N_to_be 2 n.
+Definition be32 (n : N) : bytes := N_to_be 4 n.
+Definition lenN (l : bytes) : N := N.of_nat (length l).
+
+(* io.ReadFull of n bytes: None = (unexpected) EOF *)
+Definition read_n (n : N) (l : bytes) : option (bytes * bytes) :=
+  if n <=? lenN l then Some (take (N.to_nat n) l, drop (N.to_nat n) l) else None.
+
+(* ---------- MPIs (packet.go:540-566) ---------- *)
+Record mpi := mkmpi { m_bits : N; m_bytes : bytes }.     (* parsedMPI: declared bit length, content octets *)
+
+Definition mpi_read (l : bytes) : result (mpi * bytes) :=
+  match l with
+  | b0 :: b1 :: r =>
+      let bl := b0 * 256 + b1 in
+      match read_n ((bl + 7) / 8) r with
+      | Some (v, rest) => Ok (mkmpi bl v, rest)
+      | None => Err "unexpected EOF"
+      end
+  | _ => Err "unexpected EOF"
+  end.
+Definition mpi_write (m : mpi) : bytes :=
+  [(m_bits m / 256) mod 256; m_bits m mod 256] ++ m_bytes m.
+
+(* the integer an MPI denotes and its true bit length (big.Int.SetBytes / BitLen) *)
+Definition mpi_value (m : mpi) : N := be_to_N (m_bytes m).
+Definition bitlen (n : N) : N := N.size n.
+Definition mpi_wellformed (m : mpi) : bool := m_bits m =? bitlen (mpi_value m).
+
+(* ---------- public-key material ---------- *)
+Inductive keymat : Type :=
+| KRSA (n e : mpi)
+| KDSA (p q g y : mpi)
+| KElGamal (p g y : mpi)
+| KECDSA (oid : bytes) (pt : mpi)
+| KECDH (oid : bytes) (pt : mpi) (kdf : bytes)   (* kdf: the KDF field as it is written back, length octet included *)
+| KEdDSA (oid : bytes) (pt : mpi).
+
+Record pubkey := mkpub { pk_created : N; pk_algo : N; pk_mat : keymat }.
+
+Fixpoint lookup_bytes (k : bytes) (t : list (bytes * bytes)) : bytes :=
+  match t with
+  | [] => []
+  | (a, b) :: r => if bytes_eqb a k then b else lookup_bytes k r
+  end.
+Definition oid_p256 := lookup_bytes (bs "P-256") pgp_oids.
+Definition oid_p384 := lookup_bytes (bs "P-384") pgp_oids.
+Definition oid_p521 := lookup_bytes (bs "P-521") pgp_oids.
+Definition oid_ed25519 := lookup_bytes (bs "Ed25519") pgp_oids.
+Definition oid_x25519 := lookup_bytes (bs "X25519") pgp_oids.
+
+Definition mem_N (x : N) (l : list N) : bool := existsb (N.eqb x) l.
+
+(* parseOID, public_key.go:55 *)
+Definition parse_oid (l : bytes) : result (bytes * bytes) :=
+  match l with
+  | [] => Err "unexpected EOF"
+  | n :: r =>
+      if pgp_max_oid_len <? n then Err "invalid oid length"
+      else match read_n n r with
+           | Some (o, rest) => Ok (o, rest)
+           | None => Err "unexpected EOF"
+           end
+  end.
+
+(* ecdhKdf.parse :120 and ecdhKdf.serialize :142 *)
+Definition parse_kdf (c : cfg) (l : bytes) : result (bytes * bytes) :=
+  match l with
+  | [] => Err "unexpected EOF"
+  | n :: r =>
+      if n <? 3 then Err "Unsupported ECDH KDF length"
+      else match read_n n r with
+           | None => Err "unexpected EOF"
+           | Some (b, rest) =>
+               if negb (nth 0 b 0 =? 1) then Err "Unsupported KDF reserved field"
+               else if fixkdf c then Ok (n :: b, rest)
+               else Ok ([3; 1; nth 1 b 0; nth 2 b 0], rest)
+           end
+  end.
+
+(* newECDSA :88 — [ecok oid point] is elliptic.Unmarshal(curve, point) != nil *)
+Definition nist_curve_name (oid : bytes) : option bytes :=
+  if bytes_eqb oid oid_p256 then Some (bs "P-256")
+  else if bytes_eqb oid oid_p384 then Some (bs "P-384")
+  else if bytes_eqb oid oid_p521 then Some (bs "P-521")
+  else None.
+Definition new_ecdsa (ecok : bytes -> bytes -> result bool) (oid : bytes) (pt : mpi) : result unit :=
+  match nist_curve_name oid with
+  | None => Err "unsupported oid"
+  | Some _ =>
+      let* ok := ecok oid (m_bytes pt) in
+      if ok then Ok tt else Err "failed to parse EC point"
+  end.
+
+(* newEdDSA :182 / newX25519 :191 — f.p.bytes[1:] *)
+Definition new_25519 (c : cfg) (want_oid oid : bytes) (pt : mpi) : result unit :=
+  if bytes_eqb oid want_oid then
+    if fix7 c then
+      (if lenN (m_bytes pt) =? 33 then Ok tt else Err "unsupported point length")
+    else
+      match m_bytes pt with
+      | [] => Panic "slice bounds out of range [1:0]"
+      | _ => Ok tt
+      end
+  else Err "unknown curve".
+
+(* PublicKey.parse :311 *)
+Definition parse_keymat (c : cfg) (ecok : bytes -> bytes -> result bool) (algo : N) (l : bytes)
+  : result (keymat * bytes) :=
+  if (algo =? 1) || (algo =? 2) || (algo =? 3) then
+    let* (n, l1) := mpi_read l in
+    let* (e, l2) := mpi_read l1 in
+    if 3 <? lenN (m_bytes e) then Err "large public exponent" else Ok (KRSA n e, l2)
+  else if algo =? 17 then
+    let* (p, l1) := mpi_read l in
+    let* (q, l2) := mpi_read l1 in
+    let* (g, l3) := mpi_read l2 in
+    let* (y, l4) := mpi_read l3 in
+    Ok (KDSA p q g y, l4)
+  else if algo =? 16 then
+    let* (p, l1) := mpi_read l in
+    let* (g, l2) := mpi_read l1 in
+    let* (y, l3) := mpi_read l2 in
+    Ok (KElGamal p g y, l3)
+  else if algo =? 19 then
+    let* (oid, l1) := parse_oid l in
+    let* (pt, l2) := mpi_read l1 in
+    let* _ := new_ecdsa ecok oid pt in
+    Ok (KECDSA oid pt, l2)
+  else if algo =? 18 then
+    let* (oid, l1) := parse_oid l in
+    let* (pt, l2) := mpi_read l1 in
+    let* (kdf, l3) := parse_kdf c l2 in
+    let* _ := (if bytes_eqb oid oid_x25519 then new_25519 c oid_x25519 oid pt else new_ecdsa ecok oid pt) in
+    Ok (KECDH oid pt kdf, l3)
+  else if algo =? 22 then
+    let* (oid, l1) := parse_oid l in
+    let* (pt, l2) := mpi_read l1 in
+    let* _ := new_25519 c oid_ed25519 oid pt in
+    Ok (KEdDSA oid pt, l2)
+  else Err "public key type".
+
+Definition parse_public_key (c : cfg) (ecok : bytes -> bytes -> result bool) (l : bytes)
+  : result (pubkey * bytes) :=
+  match l with
+  | v :: t0 :: t1 :: t2 :: t3 :: algo :: r =>
+      if negb (v =? 4) then Err "public key version"
+      else
+        let* (m, rest) := parse_keymat c ecok algo r in
+        Ok (mkpub (((t0 * 256 + t1) * 256 + t2) * 256 + t3) algo m, rest)
+  | _ => Err "unexpected EOF"
+  end.
+
+(* ---------- re-serialisation (serializeWithoutHeaders :537) and the hashed form ---------- *)
+Definition oid_field (oid : bytes) : bytes := lenN oid :: oid.
+Definition mat_bytes (m : keymat) : bytes :=
+  match m with
+  | KRSA n e => mpi_write n ++ mpi_write e
+  | KDSA p q g y => mpi_write p ++ mpi_write q ++ mpi_write g ++ mpi_write y
+  | KElGamal p g y => mpi_write p ++ mpi_write g ++ mpi_write y
+  | KECDSA oid pt => oid_field oid ++ mpi_write pt
+  | KECDH oid pt kdf => oid_field oid ++ mpi_write pt ++ kdf
+  | KEdDSA oid pt => oid_field oid ++ mpi_write pt
+  end.
+Definition key_body (k : pubkey) : bytes :=
+  4 :: be32 (pk_created k) ++ [pk_algo k] ++ mat_bytes (pk_mat k).
+
+(* SerializeSignaturePrefix :465 (a uint16 length) followed by the body: what every hash is fed *)
+Definition key_hash_input (k : pubkey) : bytes :=
+  153 :: be16 (lenN (key_body k)) ++ key_body k.
+
+(* setFingerPrintAndKeyId :372 — H is SHA-1 *)
+Definition fingerprint (H : bytes -> bytes) (k : pubkey) : bytes := H (key_hash_input k).
+Definition key_id_of_fp (fp : bytes) : N := be_to_N (take 8 (drop 12 fp)).              (* Fingerprint[12:20] *)
+Definition key_id_string_of_fp (fp : bytes) : bytes := hex_of true (take 8 (drop 12 fp)). (* KeyIdString :797 *)
+Definition key_id (H : bytes -> bytes) (k : pubkey) : N := key_id_of_fp (fingerprint H k).
+
+(* ---------- v4 signature packets (signature.go:84-406) ---------- *)
+Record sigcore := mksig {
+  sc_type : N; sc_alg : N; sc_hash : N;
+  sc_hashed : bytes;                 (* the hashed subpacket area, raw *)
+  sc_tag : bytes;                    (* left 16 bits of the digest *)
+  sc_mpis : list mpi;                (* signature value *)
+  sc_created : N;
+  sc_keylife : option N;
+  sc_issuer : option N;
+  sc_flags_valid : bool;
+  sc_flags : N                       (* OR of the known bits of the first octet of every key-flags subpacket *)
+}.
+Record sigp := mksigp { s_core : sigcore; s_emb : option sigcore }.
+
+(* HashSuffix, signature.go:115-132 *)
+Definition sig_header (s : sigcore) : bytes := [4; sc_type s; sc_alg s; sc_hash s].
+Definition suffix (s : sigcore) : bytes :=
+  sig_header s ++ be16 (lenN (sc_hashed s)) ++ sc_hashed s ++ [4; 255] ++ be32 (6 + lenN (sc_hashed s)).
+
+Record spst := mkspst {
+  sp_created : option N; sp_keylife : option N; sp_issuer : option N;
+  sp_fv : bool; sp_flags : N; sp_emb : option sigcore }.
+Definition spst0 : spst := mkspst None None None false 0 None.
+
+Definition known_flag_bits : N :=
+  N.lor pgp_flag_certify (N.lor pgp_flag_sign (N.lor pgp_flag_encrypt_communications
+        (N.lor pgp_flag_encrypt_storage pgp_flag_authentication))).
+
+Definition sig_alg_ok (a : N) : bool := (a =? 1) || (a =? 3) || (a =? 17) || (a =? 19) || (a =? 22).
+
+(* one subpacket; [emb] parses an embedded signature (the recursive call) *)
+Definition parse_subpacket (emb : bytes -> result sigcore) (hashed : bool) (st : spst) (l : bytes)
+  : result (spst * bytes) :=
+  match l with
+  | [] => Err "unreachable"
+  | b0 :: r0 =>
+      let hdr : option (N * bytes) :=
+        if b0 <? 192 then Some (b0, r0)
+        else if b0 <? 255 then
+          match r0 with
+          | b1 :: r1 => Some ((b0 - 192) * 256 + b1 + 192, r1)
+          | [] => None
+          end
+        else
+          match r0 with
+          | b1 :: b2 :: b3 :: b4 :: r4 => Some (((b1 * 256 + b2) * 256 + b3) * 256 + b4, r4)
+          | _ => None
+          end in
+      match hdr with
+      | None => Err "signature subpacket truncated"
+      | Some (len, sub) =>
+          match read_n len sub with
+          | None => Err "signature subpacket truncated"
+          | Some (body, rest) =>
+              match body with
+              | [] => Err "zero length signature subpacket"
+              | t0 :: content =>
+                  let typ := N.land t0 127 in
+                  let critical := 128 <=? t0 in
+                  let n := lenN content in
+                  let ok (s : spst) := Ok (s, rest) in
+                  if typ =? 2 then
+                    if negb hashed then Err "signature creation time in non-hashed area"
+                    else if negb (n =? 4) then Err "signature creation time not four bytes"
+                    else ok (mkspst (Some (be_to_N content)) (sp_keylife st) (sp_issuer st) (sp_fv st) (sp_flags st) (sp_emb st))
+                  else if typ =? 3 then
+                    if negb hashed then ok st
+                    else if negb (n =? 4) then Err "expiration subpacket with bad length" else ok st
+                  else if typ =? 9 then
+                    if negb hashed then ok st
+                    else if negb (n =? 4) then Err "key expiration subpacket with bad length"
+                    else ok (mkspst (sp_created st) (Some (be_to_N content)) (sp_issuer st) (sp_fv st) (sp_flags st) (sp_emb st))
+                  else if typ =? 16 then
+                    if negb (n =? 8) then Err "issuer subpacket with bad length"
+                    else ok (mkspst (sp_created st) (sp_keylife st) (Some (be_to_N content)) (sp_fv st) (sp_flags st) (sp_emb st))
+                  else if typ =? 25 then
+                    if negb hashed then ok st
+                    else if negb (n =? 1) then Err "primary user id subpacket with bad length" else ok st
+                  else if typ =? 27 then
+                    if negb hashed then ok st
+                    else match content with
+                         | [] => Err "empty key flags subpacket"
+                         | f :: _ => ok (mkspst (sp_created st) (sp_keylife st) (sp_issuer st) true
+                                           (N.lor (sp_flags st) (N.land f known_flag_bits)) (sp_emb st))
+                         end
+                  else if typ =? 29 then
+                    if negb hashed then ok st
+                    else if n =? 0 then Err "empty revocation reason subpacket" else ok st
+                  else if typ =? 32 then
+                    match sp_emb st with
+                    | Some _ => Err "Cannot have multiple embedded signatures"
+                    | None =>
+                        let* e := emb content in
+                        if negb (sc_type e =? pgp_sigtype_primary_key_binding) then Err "cross-signature has unexpected type"
+                        else ok (mkspst (sp_created st) (sp_keylife st) (sp_issuer st) (sp_fv st) (sp_flags st) (Some e))
+                    end
+                  else if (typ =? 11) || (typ =? 21) || (typ =? 22) || (typ =? 30) then ok st
+                  else if critical then Err "unknown critical signature subpacket type" else ok st
+              end
+          end
+      end
+  end.
+
+(* parseSignatureSubpackets :185 — every subpacket consumes at least one octet, so [length l] fuel suffices *)
+Fixpoint parse_subpackets_loop (fuel : nat) (emb : bytes -> result sigcore) (hashed : bool) (st : spst) (l : bytes)
+  : result spst :=
+  match l with
+  | [] => Ok st
+  | _ =>
+      match fuel with
+      | O => Err "fuel"
+      | S f =>
+          let* (st', rest) := parse_subpacket emb hashed st l in
+          parse_subpackets_loop f emb hashed st' rest
+      end
+  end.
+Definition parse_subpackets (emb : bytes -> result sigcore) (hashed : bool) (st : spst) (l : bytes) : result spst :=
+  let* st' := parse_subpackets_loop (length l) emb hashed st l in
+  match sp_created st' with
+  | None => Err "no creation time in signature"
+  | Some _ => Ok st'
+  end.
+
+Definition hash_id_ok (h : N) : bool := mem_N h pgp_hash_ids.
+
+(* Signature.parse :84; fuel bounds the nesting of embedded signatures *)
+Fixpoint parse_sig_fuel (fuel : nat) (l : bytes) : result (sigp * bytes) :=
+  match fuel with
+  | O => Err "fuel"
+  | S f =>
+      let emb (b : bytes) : result sigcore :=
+        let* (s, _) := parse_sig_fuel f b in Ok (s_core s) in
+      match l with
+      | [] => Err "unexpected EOF"
+      | v :: r =>
+          if negb (v =? 4) then Err "signature packet version"
+          else match r with
+               | typ :: alg :: hid :: h1 :: h0 :: r1 =>
+                   if negb (sig_alg_ok alg) then Err "public key algorithm"
+                   else if negb (hash_id_ok hid) then Err "hash function"
+                   else
+                     match read_n (h1 * 256 + h0) r1 with
+                     | None => Err "unexpected EOF"
+                     | Some (hashed, r2) =>
+                         let* st1 := parse_subpackets emb true spst0 hashed in
+                         match r2 with
+                         | u1 :: u0 :: r3 =>
+                             match read_n (u1 * 256 + u0) r3 with
+                             | None => Err "unexpected EOF"
+                             | Some (unhashed, r4) =>
+                                 let* st2 := parse_subpackets emb false st1 unhashed in
+                                 match r4 with
+                                 | g0 :: g1 :: r5 =>
+                                     let* (mpis, r6) :=
+                                       (if (alg =? 1) || (alg =? 3) then
+                                          let* (a, x) := mpi_read r5 in Ok ([a], x)
+                                        else
+                                          let* (a, x) := mpi_read r5 in
+                                          let* (b, y) := mpi_read x in Ok ([a; b], y)) in
+                                     let core := mksig typ alg hid hashed [g0; g1] mpis
+                                                   (match sp_created st2 with Some t => t | None => 0 end)
+                                                   (sp_keylife st2) (sp_issuer st2) (sp_fv st2) (sp_flags st2) in
+                                     Ok (mksigp core (sp_emb st2), r6)
+                                 | _ => Err "unexpected EOF"
+                                 end
+                             end
+                         | _ => Err "unexpected EOF"
+                         end
+                     end
+               | _ => Err "unexpected EOF"
+               end
+      end
+  end.
+Definition parse_sig (l : bytes) : result (sigp * bytes) := parse_sig_fuel (S (length l)) l.
+
+(* ---------- description (internal/file/pgp.go) ---------- *)
+Fixpoint lookup_N (k : N) (t : list (N * bytes)) : bytes :=
+  match t with
+  | [] => []
+  | (a, b) :: r => if a =? k then b else lookup_N k r
+  end.
+Definition algo_name (a : N) : bytes := lookup_N a pgp_algo_names.   (* map lookup: unknown -> "" *)
+
+Definition has_flag (flags bit : N) : bool := negb (N.land flags bit =? 0).
+(* keyFlagsToString :34 *)
+Definition usage_string (flags : N) : bytes :=
+  join (bs ", ")
+    ((if has_flag flags pgp_flag_sign then [bs "sign"] else []) ++
+     (if has_flag flags pgp_flag_certify then [bs "certify"] else []) ++
+     (if has_flag flags pgp_flag_encrypt_communications then [bs "encrypt communications"] else []) ++
+     (if has_flag flags pgp_flag_encrypt_storage then [bs "encrypt storage"] else []) ++
+     (if has_flag flags pgp_flag_authentication then [bs "authentication"] else [])).
+
+(* BitLength :828 — the DECLARED bit length of the modulus / prime *)
+Definition bit_length (k : pubkey) : option N :=
+  match pk_mat k with
+  | KRSA n _ => Some (m_bits n)
+  | KDSA p _ _ _ => Some (m_bits p)
+  | KElGamal p _ _ => Some (m_bits p)
+  | _ => None
+  end.
+Definition curve_attr (k : pubkey) : option bytes :=
+  match pk_mat k with
+  | KECDSA oid _ => nist_curve_name oid
+  | KECDH oid _ _ => nist_curve_name oid          (* X25519 is held as []byte: no Curve attribute *)
+  | KEdDSA _ _ => Some (bs "Ed25519")
+  | _ => None
+  end.
+
+(* gpgPublicKeyAttributes :54 *)
+Definition describe_key (H : bytes -> bytes) (k : pubkey) : list (bytes * bytes) :=
+  let fp := fingerprint H k in
+  [(bs "Key ID", key_id_string_of_fp fp);
+   (bs "Fingerprint", hex_of true fp);
+   (bs "Algorithm", algo_name (pk_algo k))] ++
+  (match curve_attr k with Some c => [(bs "Curve", c)] | None => [] end) ++
+  (match bit_length k with Some b => [(bs "Size", dec_of_N b ++ bs " bits")] | None => [] end).
+
+Definition fmt_date_utc (sec : N) : bytes := fmt_date (civil_of_unix (Z.of_N sec) 0).
+
+(* gpgSignatureAttributes :73 *)
+Definition expires_attr (c : cfg) (key_created : N) (life : option N) : bytes :=
+  match life with
+  | None => bs "never"
+  | Some l => if fix28 c && (l =? 0) then bs "never" else fmt_date_utc (key_created + l)
+  end.
+Definition describe_sig (c : cfg) (s : sigcore) (key_created : N) : list (bytes * bytes) :=
+  [(bs "Usage", usage_string (sc_flags s));
+   (bs "Created", fmt_date_utc (sc_created s));
+   (bs "Expires", expires_attr c key_created (sc_keylife s))].
